@@ -6,9 +6,25 @@ package main
 //   c19_sendFunc            the closure `sendFunc` inside syncer/output.go sendCmdsBatch
 //   c19_handleError         the closure `handleError` there (pipelined receiver)
 //   c19_handleDirectError   func handleDirectError
+// Session 4 - what Model/ClusterExec.lean and ClusterSender.put/dispatch transcribe:
+//   c19_positionSplit       the statement of `sendFuncOnce` that sends the data batch on its own and starts a new
+//                           batch for the position (blocking cluster output, resumable): ClusterExec `split`
+//   c19_txnPipeFallback     the statement of NewRedisOutput that configures transactional cluster outputs
+//                           (redirect following off; pipeline mode off when resuming from the target)
+//   c19_doBatch             Batch.doBatch (batch.go): write all, flush, read the replies in order, stop at the
+//                           first error: ClusterExec clientOk / chaseExec / fail (ReadBefore)
+//   c19_receiveReply        batch2.receiveReply (batch_pipe.go): the same loop on the pipelined path
+//   c19_execReturn          Batch.Exec: waits for every node batch, first error wins: ClusterExec ack
+//   c19_dispatch            batch2.Dispatch: ClusterSender.dispatch
+//   c19_submit              nodePipeline.Submit: queued or refused, never both
+//   c19_handleReply         Cluster.handleReply: which failures of a followed redirect are redirect-class errors
+//   c19_clusterDo           Cluster.do: a failed write/read on an established connection is marked "sent, no reply"
+//                           (ClusterExec `fail redirect` = refused and not delivered elsewhere, d698491)
 
 import (
 	"go/ast"
+	"go/token"
+	"strings"
 )
 
 func c19Closure(fn *ast.FuncDecl, name string) ast.Node {
@@ -28,7 +44,60 @@ func c19Closure(fn *ast.FuncDecl, name string) ast.Node {
 	return found
 }
 
+// c19IfMentioning: the first if statement under n whose condition mentions every word
+func c19IfMentioning(fset *token.FileSet, n ast.Node, words ...string) ast.Node {
+	var found ast.Node
+	ast.Inspect(n, func(x ast.Node) bool {
+		is, ok := x.(*ast.IfStmt)
+		if !ok || found != nil {
+			return found == nil
+		}
+		c := c17Print(fset, is.Cond)
+		for _, w := range words {
+			if !strings.Contains(c, w) {
+				return true
+			}
+		}
+		found = is
+		return false
+	})
+	return found
+}
+
+func c19Method(f *ast.File, recv, name string) *ast.FuncDecl {
+	for _, d := range f.Decls {
+		fn, ok := d.(*ast.FuncDecl)
+		if !ok || fn.Name.Name != name || fn.Recv == nil || len(fn.Recv.List) != 1 {
+			continue
+		}
+		t := fn.Recv.List[0].Type
+		if st, ok := t.(*ast.StarExpr); ok {
+			t = st.X
+		}
+		if id, ok := t.(*ast.Ident); ok && id.Name == recv {
+			return fn
+		}
+	}
+	return nil
+}
+
 func genC19() {
+	for _, m := range [][4]string{
+		{"pkg/redis/client/cluster/batch.go", "Batch", "doBatch", "c19_doBatch"},
+		{"pkg/redis/client/cluster/batch.go", "Batch", "Exec", "c19_execReturn"},
+		{"pkg/redis/client/cluster/batch_pipe.go", "batch2", "receiveReply", "c19_receiveReply"},
+		{"pkg/redis/client/cluster/batch_pipe.go", "batch2", "Dispatch", "c19_dispatch"},
+		{"pkg/redis/client/cluster/node_pipeline.go", "nodePipeline", "Submit", "c19_submit"},
+		{"pkg/redis/client/cluster/cluster.go", "Cluster", "handleReply", "c19_handleReply"},
+		{"pkg/redis/client/cluster/cluster.go", "Cluster", "do", "c19_clusterDo"},
+	} {
+		fs, ff := parseFile(m[0])
+		fn := c19Method(ff, m[1], m[2])
+		if fn == nil {
+			die("%s.%s not found in %s", m[1], m[2], m[0])
+		}
+		facts[m[3]] = c17Print(fs, fn.Body)
+	}
 	fset, f := parseFile("syncer/output.go")
 	for _, d := range f.Decls {
 		fn, ok := d.(*ast.FuncDecl)
@@ -44,11 +113,26 @@ func genC19() {
 				}
 				facts["c19_"+name] = c17Print(fset, b)
 			}
+			once := c19Closure(fn, "sendFuncOnce")
+			if once == nil {
+				die("closure sendFuncOnce not found in sendCmdsBatch")
+			}
+			sp := c19IfMentioning(fset, once, "EnableResumeFromBreakPoint", "IsCluster", "shouldUpdateCP")
+			if sp == nil {
+				die("the position split of sendFuncOnce not found")
+			}
+			facts["c19_positionSplit"] = c17Print(fset, sp)
+		case "NewRedisOutput":
+			fb := c19IfMentioning(fset, fn, "CanTransaction", "IsCluster")
+			if fb == nil {
+				die("the transactional cluster configuration of NewRedisOutput not found")
+			}
+			facts["c19_txnPipeFallback"] = c17Print(fset, fb)
 		case "handleDirectError":
 			facts["c19_handleDirectError"] = c17Print(fset, fn.Body)
 		}
 	}
-	for _, k := range []string{"c19_sendFunc", "c19_handleError", "c19_handleDirectError"} {
+	for _, k := range []string{"c19_sendFunc", "c19_handleError", "c19_handleDirectError", "c19_positionSplit", "c19_txnPipeFallback"} {
 		if _, ok := facts[k]; !ok {
 			die("%s not found", k)
 		}
